@@ -99,7 +99,11 @@ def gen_item(rng, n):
         for k, v in (('hashes', gen_hashes(rng)), ('name', pick_str(rng) or 'f'), ('parent_directory_ref', ref('directory'))):
             if some():
                 c[k] = v
-        if rng.random() < 0.4:
+        if rng.random() < 0.15:
+            # an unregistered property extension: its content is kept as given and contributes as given
+            c['extensions'] = {'extension-definition--' + C.mkuuid(rng.randrange(3), 'c06ext'): {
+                'extension_type': 'property-extension', 'scores': rng.sample([1.0, 10.0, 1e-06, 3.5, 1e22, 42], 3), 'label': pick_str(rng) or 'l'}}
+        elif rng.random() < 0.4:
             c['extensions'] = {'ntfs-ext': {'sid': pick_str(rng) or 's', 'alternate_data_streams': [{'name': 'second.stream', 'size': rng.randrange(10 ** 6)}]}}
             if rng.random() < 0.5:
                 c['extensions']['windows-pebinary-ext'] = {'pe_type': 'exe', 'sections': [{'name': '.text', 'entropy': rng.choice([7.25, 1e-7, 1.2345678901234568e+20, 0.1, 100.0, 6.02e23])}]}
@@ -167,6 +171,10 @@ def gen_item(rng, n):
         c['name'] = pick_str(rng) or 'b'
         if some():
             c['meta'] = {'k1': pick_str(rng), 'zz': 'v', 'Aa': 'w', 'a_b': 'x', 'a-b': 'é'}
+            if rng.random() < 0.5:
+                # values a dictionary property keeps as they are: numbers directly inside arrays, nested arrays, booleans, integral floats
+                c['meta']['nums'] = rng.sample([1.0, 2.0, 0.5, 1e-05, 1e16, 1e21, -0.0, 100, 2 ** 53, 7.25, 1.5e-7, 123456789.125], rng.randrange(1, 5))
+                c['meta']['grid'] = [[1.0, 2], [True, 'x'], []]
         nc['note'] = pick_str(rng)
     # an empty string is a present value (it contributes as ""), except where the type refuses it
     c = {k: v for k, v in c.items() if (v != '' or (t, k) in (('email-message', 'subject'), ('email-message', 'body'), ('x-sim-obs-a', 'alpha'),
